@@ -338,6 +338,24 @@ def vertex_cut(ctx, g):
                     shapes.append("edge")        # (v + offset, w)
                 elif x0[0] == "param" and x0[1] == 2 and x1[0] == "field" and x1[1][0] == "binop" and x1[1][2][0] == "param" and x1[1][2][1] == 2:
                     shapes.append("split")       # (v, v + offset)
+        # ... and the arithmetic is decided by evaluation: offset = (largest vertex) + 1; an edge (3, 5) becomes (3 + offset, 5), a vertex 3 becomes (3, 3 + offset)
+        if sorted(shapes) == ["edge", "split"] and off is not None:
+            offn = norm(off, g)
+            mx = [x for x in subterms(offn) if isinstance(x, tuple) and x and x[0] == "call" and x[1].endswith("unwrap_or") and contains(x, lambda y: is_call(y, "Iterator::max"))]
+            val = eval_term_env(unov_deep(fold_std_ops(map_term(offn, lambda y: ("int", 41) if mx and y == mx[0] else None))), {}) if mx else None
+            if val != 42:
+                shapes.append("offset is not (largest vertex) + 1: evaluates to %s for a largest vertex 41" % val)
+            for m in maps:
+                for item, want in ((("agg", "tuple", (("int", 3), ("int", 5))), (103, 5)), (("int", 3), (3, 103))):
+                    r_ = apply_closure(ctx.facts, m[2][1], [item], g)
+                    r_ = strip(simplify_proj(r_)) if r_ is not None else None
+                    if r_ is None or r_[0] != "agg" or len(r_[2]) != 2:
+                        continue
+                    got = tuple(eval_term_env(unov_deep(fold_std_ops(map_term(x, lambda y: ("int", 100) if norm(y, g) == offn else None))), {}) for x in r_[2])
+                    if None in got:
+                        continue
+                    if got not in ((103, 5), (3, 103)):
+                        shapes.append("with offset 100 an item %s becomes %s" % ("(3, 5)" if item[0] == "agg" else "3", got))
         ctx.ob("T4-split-edges", b.name, "x_edges", "ok" if sorted(shapes) == ["edge", "split"] else "violation",
                "x_edges = {(v + offset, w) : (v, w) an edge} u {(v, v + offset) : v a vertex}" if sorted(shapes) == ["edge", "split"] else
                "the split graph is not {(v + offset, w)} u {(v, v + offset)}: found %s" % shapes, b.span_of(bi))
